@@ -959,7 +959,7 @@ def c11_cases(seed, n):
     return out
 
 
-def c11_medium_cases(seed, n, kinds=(0, 1, 2, 3)):
+def c11_medium_cases(seed, n, kinds=(0, 1, 2, 3, 4)):
     """Inputs of many chunks: 60-150 rows per table with runs of duplicate keys, stored with 64-byte blocks
     (a scan batch ends every ~12 rows) and in three INSERTs, so that groups of equal keys straddle the chunk
     boundaries the merge join / sort aggregation / top-n see."""
@@ -993,7 +993,15 @@ def c11_medium_cases(seed, n, kinds=(0, 1, 2, 3)):
         A = lambda al, c, ty=G.INT: ("col", al, c, ty)
         base = dict(where=None, grp=[], hav=None, agg=False, dist=False, ord=[], lim=-1, off=0)
         kind = kinds[i % len(kinds)]
-        if kind == 3:
+        if kind == 4:
+            # LIMIT / OFFSET straight over a scan of many batches (no ORDER BY: any rows of the right number),
+            # also with ORDER BY under optimizer off (Limit over Order) and on (TopN)
+            sel = [(A("x1", "a"), "c1"), (A("x1", "b"), "c2"), (A("x1", "c", G.STR), "c3")]
+            q = dict(base, sel=sel, frm=("t", "t1", "x1"), lim=rnd.choice([1, 3, 10, 40]),
+                     off=rnd.choice([0, 1, 2, 5, 12, 13, 24, 37, 59, 200]))
+            if rnd.random() < 0.3:
+                q["where"] = ("bin", ">=", A("x1", "b"), ("ci", 1), G.BOOL)
+        elif kind == 3:
             # semi / anti join: hash (equality correlation) or nested loop (inequality correlation), the inner
             # side arrives in three chunks
             outer_t, inner_t = ("t1", "t2") if rnd.random() < 0.5 else ("t2", "t1")
